@@ -255,7 +255,7 @@ def srcPrefix (P : Proc) (e : Err) : Str :=
   | none => []
 
 /-- the redacted verbose rendering: `redact.Sprintf("%+v", err).Redact().StripMarkers()` -/
-def verboseRedacted (e : Err) : Str := stripMarkers (redactS (assemble [.pre (render true true e)]))
+def verboseRedacted (e : Err) : Str := stripT (redactT (assembleT [.preT (renderT true true e)]))
 
 def compHeader : Str := nl :: b!"-- report composition:" ++ [nl]
 
